@@ -116,6 +116,24 @@ func c02Kinds(seed int64) []unitKind {
 			return withTrail(PSIUnit(0x12, p, [][]byte{SecEIT(a, ref.SecHdr{CNI: true}), SecEIT(b, ref.SecHdr{TableID: 0x6f, CNI: true})},
 				[]ExpData{{Kind: "EIT", Table: a}, {Kind: "EIT", Table: b}}), t)
 		}},
+		// tables the library recognises but does not decode (BAT, TDT, stuffing table) sharing a unit with
+		// one it decodes: they deliver nothing and must not hide what follows them
+		{Name: "bat-then-sdt", PSI: true, Make: func(p, t int) SUnit {
+			d := modelSDT(3)
+			bat := ref.Long(ref.SecHdr{TableID: 0x4a, SSI: true, Private: true, Ext: 0x0bb0, CNI: true, Version: 3}, append(ref.Loop12(0xf, []byte{0x47, 0x03, 'b', 'a', 't'}), ref.Loop12(0xf, nil)...))
+			return withTrail(PSIUnit(0x11, p, [][]byte{bat, SecSDT(d, ref.SecHdr{CNI: true})}, []ExpData{{Kind: "SDT", Table: d}}), t)
+		}},
+		{Name: "tdt-then-tot", PSI: true, Make: func(p, t int) SUnit {
+			d := modelTOT()
+			utc := ref.DVBTime(d.UTCTime)
+			tdt := ref.Short(0x70, false, true, utc[:], false)
+			return withTrail(PSIUnit(0x14, p, [][]byte{tdt, SecTOT(d)}, []ExpData{{Kind: "TOT", Table: d}}), t)
+		}},
+		{Name: "stuffing-table-then-eit", PSI: true, Make: func(p, t int) SUnit {
+			d := modelEIT(2)
+			st := ref.Short(0x72, false, true, bytes.Repeat([]byte{0xa5}, 40), false)
+			return withTrail(PSIUnit(0x12, p, [][]byte{st, SecEIT(d, ref.SecHdr{CNI: true})}, []ExpData{{Kind: "EIT", Table: d}}), t)
+		}},
 		{Name: "tot", PSI: true, Make: func(p, t int) SUnit {
 			d := modelTOT()
 			return withTrail(PSIUnit(0x14, p, [][]byte{SecTOT(d)}, []ExpData{{Kind: "TOT", Table: d}}), t)
